@@ -3,6 +3,9 @@
  * thread is the return of the public call).
  *
  * usage: rtdrive <script> <log>
+ *        rtdrive -mt <script1> <log1> <script2> <log2> ...   one pthread per script; the op
+ *                  "barrier" waits for all of them (proc_init goes before the first barrier of
+ *                  script 1, the other scripts start with "barrier")
  *
  * Script lines (one op each, '#' comments):
  *   proc_init <app> <loom> <pid>
@@ -31,6 +34,7 @@
  */
 #include <errno.h>
 #include <inttypes.h>
+#include <pthread.h>
 #include <stdint.h>
 #include <stdio.h>
 #include <stdlib.h>
@@ -40,12 +44,15 @@
 
 #include "ovni.h"
 
-static FILE *logf;
-static int cur_i = -1;
-static char cur_op[64];
-static char obs_path[4096];
+static __thread FILE *logf;
+static __thread int cur_i = -1;
+static __thread char cur_op[64];
+static __thread char obs_path[4096];
 static char loom[512];
-static int pid_ = 0, tid_ = 0;
+static int pid_ = 0;
+static __thread int tid_ = 0;
+static int mt = 0;
+static pthread_barrier_t bar;
 
 void abort(void)
 {
@@ -115,14 +122,10 @@ static int hexval(int c)
 	return -1;
 }
 
-int main(int argc, char *argv[])
+static int run_script(const char *script, const char *logpath)
 {
-	if (argc < 3) {
-		fprintf(stderr, "usage: rtdrive script log\n");
-		return 2;
-	}
-	FILE *f = fopen(argv[1], "r");
-	logf = fopen(argv[2], "w");
+	FILE *f = fopen(script, "r");
+	logf = fopen(logpath, "w");
 	if (!f || !logf) {
 		perror("open");
 		return 2;
@@ -252,6 +255,9 @@ int main(int argc, char *argv[])
 			char v[256] = "";
 			sscanf(rest, "%255[^\n]", v);
 			ovni_version_check_str(v);
+		} else if (!strcmp(op, "barrier")) {
+			if (mt)
+				pthread_barrier_wait(&bar);
 		} else if (!strcmp(op, "free")) {
 			ovni_thread_free();
 		} else if (!strcmp(op, "fini")) {
@@ -267,4 +273,41 @@ int main(int argc, char *argv[])
 	}
 	fclose(logf);
 	return 0;
+}
+
+struct targ { const char *script, *log; int rc; };
+
+static void *thread_main(void *p)
+{
+	struct targ *a = p;
+	a->rc = run_script(a->script, a->log);
+	return NULL;
+}
+
+int main(int argc, char *argv[])
+{
+	if (argc >= 4 && !strcmp(argv[1], "-mt")) {
+		int n = (argc - 2) / 2;
+		struct targ *a = calloc((size_t) n, sizeof(*a));
+		pthread_t *th = calloc((size_t) n, sizeof(*th));
+		mt = 1;
+		pthread_barrier_init(&bar, NULL, (unsigned) n);
+		for (int i = 0; i < n; i++) {
+			a[i].script = argv[2 + 2 * i];
+			a[i].log = argv[3 + 2 * i];
+			pthread_create(&th[i], NULL, thread_main, &a[i]);
+		}
+		int rc = 0;
+		for (int i = 0; i < n; i++) {
+			pthread_join(th[i], NULL);
+			if (a[i].rc != 0)
+				rc = a[i].rc;
+		}
+		return rc;
+	}
+	if (argc < 3) {
+		fprintf(stderr, "usage: rtdrive script log | rtdrive -mt script log script log ...\n");
+		return 2;
+	}
+	return run_script(argv[1], argv[2]);
 }
